@@ -394,6 +394,9 @@ func c09RaceRun(c *Ctx) {
 			c.Cap(fmt.Sprintf("schedule search of %s with %d deviations stopped by the internal deadline", pl.scenario, pl.bound))
 		}
 	}
+
+	// two call flows at once (zz_flows2.go): every explored execution under the race detector
+	RunFlowsConcurrentRace(c, flowExactlyOnce(true), flowExactlyOnce(false), flowTransparent)
 }
 
 var _ = net.IPv4zero
@@ -407,6 +410,9 @@ func init() {
 		Replay: func(c *Ctx, raw json.RawMessage) string {
 			var cs c09Case
 			json.Unmarshal(raw, &cs)
+			if cl, ok := replayDual(raw, flowExactlyOnce(true), flowExactlyOnce(false), flowTransparent); ok {
+				return cl
+			}
 			r := c09Exec(cs.Scenario, cs.Choices)
 			return r.clause
 		}})
